@@ -566,16 +566,16 @@ def gen_file_cases(rng, tier):
         cases.append(dict(mode=mode, proto=proto, points=pts, pose=pose, il=il, cl=cl, tamper=tamper, big=False,
                           retamper=rng.below(8) if rng.chance(1, 4) else None))
     # files of more than one packet: the batching per packet is visible only here
-    for i in range(3 if tier == "quick" else 24):
+    for i in range(2 if tier == "quick" else 24):
         proto = [("x", "D/-/-"), ("y", "D/-/-"), ("z", "D/-/-"), ("cis", "I/0/2"), ("sr", "D/-/-"), ("sa", "D/-/-"), ("se", "D/-/-"),
                  ("sis", "I/0/2"), ("in", "D/-/-"), ("r", "D/-/-"), ("g", "D/-/-"), ("b", "D/-/-"), ("ts", "D/-/-"),
                  ("u.v.q", "D/-/-"), ("row", "I/0/100000"), ("col", "I/0/7")]
-        mode = "n" if i % 3 else "r"
+        mode = "r" if i % 3 == 1 else "n"
         if mode == "r":
             proto[3] = ("cis", "I/0/3")
         wproto = [(nm, ty if ty[0] in "IS" else ty[0]) for nm, ty in proto]
         cap = gen.proto_capacity(wproto)
-        npts = cap + rng.choice([1, 2, 30]) if i % 2 == 0 else 2 * cap + 1
+        npts = cap + rng.choice([1, 2, 30]) if (i % 4 != 3 or tier == "quick") else 2 * cap + 1
         pts = [[("d%016x" % (rand_angle(rng) if nm in ("sa", "se") else rand_f64(rng, tame=True))) if ty[0] == "D" else
                 "i%d" % (rng.below(3) if nm in ("cis", "sis") else j if nm == "row" else rng.below(8))
                 for nm, ty in proto] for j in range(npts)]
@@ -728,7 +728,13 @@ def file_level(rep, rng, tier, trig, replay=None):
     else:
         cases = gen_file_cases(rng, tier)
     wl = ["SIMW %s %s %s %s %s %s" % (c["mode"], gen.proto_tok(c["proto"]), gen.points_tok(c["points"]) or "-", c["pose"], c["il"], c["cl"]) for c in cases]
-    wo = core.run_cases(impl, wl)
+    if replay and replay.get("file_hex"):
+        # the recorded file and descriptor, not a new run of the writer
+        wo = ["w=o dev=%s desc=%s" % (replay["file_hex"], replay["descriptor"])]
+        cases = [dict(cases[0], mode="r", retamper=None, proto=[(nt.split("=", 1)[0], nt.split("=", 1)[1]) for nt in
+                                                                 parse_desc(replay["descriptor"])["proto_tok"].split(",") if nt])]
+    else:
+        wo = core.run_cases(impl, wl)
     rd_lines, metas = [], []
     stats = dict(files=0, write_refused=0, descriptor_differs=0, tampered=0)
     for c, o in zip(cases, wo):
@@ -757,7 +763,7 @@ def file_level(rep, rng, tier, trig, replay=None):
             stats["tampered"] += 1
         desc = desc_tok(d["fo"], rec, proto_tok, il_tok, cl_tok, pose_tok)
         small = len(c["points"]) <= 5
-        opts = list(range(64)) if (small or tier == "thorough") and not c["big"] else ([0, 63, 61, 2] if c["big"] else covering_opts())
+        opts = [replay["options"]] if replay and "options" in replay else list(range(64)) if (small or tier == "thorough") and not c["big"] else (([61, 2] if tier == "quick" else [0, 63, 61, 2]) if c["big"] else covering_opts())
         rd_lines.append("SIMRD - %s %s %s" % (f["dev"], desc, ",".join(map(str, opts))))
         metas.append(dict(case=c, desc=desc, d=parse_desc(desc), opts=opts, what=what, dev=f["dev"]))
         stats["files"] += 1
@@ -938,7 +944,7 @@ def run(rep, tier, rng, replay=None):
         for nm, _ in m["case"]["proto"]:
             protos[nm] = protos.get(nm, 0) + 1
     rep.cov.update(attribute_histogram=protos, trig_table_entries=len(trig.table),
-                   tamper_histogram={w: sum(1 for m in metas if m["what"] == w) for w in sorted(set(str(m["what"]) for m in metas))},
+                   tamper_histogram={w: sum(1 for m in metas if str(m["what"]) == w) for w in sorted(set(str(m["what"]) for m in metas))},
                    option_vectors_per_small_file=64, traces_validated_against_impl=st_u["unit_cases"] + st_f["files"])
     if metas:
         m = metas[len(metas) // 2]
